@@ -519,6 +519,13 @@ func (a *Application) executeTranslatedStreamingRequest(
 		return fmt.Errorf("request cancelled while waiting for backend headers: %w", ctx.Err())
 	}
 
+	// no backend produced a response: report the failure, nothing has been written yet
+	if streamRecorder.failedBeforeWrite != nil {
+		pipeReader.Close()
+		<-proxyErrChan
+		return fmt.Errorf("proxy request failed: %w", streamRecorder.failedBeforeWrite)
+	}
+
 	// handle backend errors before starting sse stream
 	if streamRecorder.status >= 400 {
 		a.handleStreamingBackendError(w, pipeReader, streamRecorder, proxyErrChan, pr, trans)
@@ -572,7 +579,12 @@ func (a *Application) startProxyGoroutine(
 		err := a.proxyService.ProxyRequestToEndpoints(localCtx, streamRecorder, localR, endpoints, pr.stats, pr.requestLogger)
 		// If the proxy returned an error without ever calling Write or WriteHeader,
 		// headersReady is never closed and the main goroutine blocks forever.
-		// Ensure it is always signalled before closing the pipe.
+		// Ensure it is always signalled before closing the pipe. Remember the failure first,
+		// so the waiting side reports it instead of translating an empty stream into a
+		// fabricated 200 completion.
+		if err != nil && !streamRecorder.wrote {
+			streamRecorder.failedBeforeWrite = err
+		}
 		streamRecorder.ensureHeadersReady()
 		pipeWriter.Close() // Signal end of stream
 		proxyErrChan <- err
@@ -862,11 +874,13 @@ func (r *responseRecorder) WriteHeader(statusCode int) {
 
 // captures headers while forwarding body to pipe (for streaming)
 type streamingResponseRecorder struct {
-	writer       io.Writer
-	headers      http.Header
-	headersReady chan struct{}
-	closeOnce    sync.Once
-	status       int
+	writer            io.Writer
+	failedBeforeWrite error // set by the proxy goroutine before headersReady is closed
+	headers           http.Header
+	headersReady      chan struct{}
+	closeOnce         sync.Once
+	status            int
+	wrote             bool // only touched by the proxy goroutine
 }
 
 func newStreamingResponseRecorder(w io.Writer) *streamingResponseRecorder {
@@ -889,12 +903,14 @@ func (r *streamingResponseRecorder) ensureHeadersReady() {
 }
 
 func (r *streamingResponseRecorder) Write(data []byte) (int, error) {
+	r.wrote = true
 	r.ensureHeadersReady()
 	return r.writer.Write(data)
 }
 
 func (r *streamingResponseRecorder) WriteHeader(statusCode int) {
 	r.status = statusCode // Capture status code to detect backend errors
+	r.wrote = true
 	r.ensureHeadersReady()
 	// Don't propagate the status write for streaming; just mark headers sent.
 }
